@@ -432,7 +432,16 @@ public:
           case 4: acc += static_cast<uint64_t>(ApplicationTools::getParameter<int>(key, lastMap, 3, suffix, sOpt, warn)); break;
           case 5: acc ^= strHash(hexfloat(ApplicationTools::getParameter<double>(key, lastMap, 0.5, suffix, sOpt, warn))); break;
           case 6: acc += ApplicationTools::getParameter<unsigned int>(key, lastMap, 2u, suffix, sOpt, warn); break;
-          case 7: acc ^= strHash(ApplicationTools::getAFilePath(key, lastMap, o.b & 8, o.b & 16, suffix, sOpt, "none", warn)); break;
+          case 7: {
+            std::string path = ApplicationTools::getAFilePath(key, lastMap, o.b & 8, o.b & 16, suffix, sOpt, "none", warn);
+            acc ^= strHash(path);
+            // the path just read is taken apart the way an application does before opening it
+            char sep = (o.b & 32) ? '\\' : '/';
+            guard("FileTools::getFileName", [&] { acc ^= strHash(bpp::FileTools::getFileName(path, sep)); });
+            guard("FileTools::getExtension", [&] { acc ^= strHash(bpp::FileTools::getExtension(path)); });
+            guard("FileTools::getParent", [&] { acc ^= strHash(bpp::FileTools::getParent(path, sep)); });
+            break;
+          }
           case 8: acc += ApplicationTools::getVectorParameter<int>(key, lastMap, (o.b & 32) ? ';' : ',', "", suffix, sOpt, warn).size(); break;
           case 9: acc += ApplicationTools::getVectorParameter<double>(key, lastMap, ',', "(1,2)", suffix, sOpt, warn).size(); break;
           case 10: acc += ApplicationTools::getVectorParameter<int>(key, lastMap, ',', '-', "", suffix, sOpt, true).size(); break;
